@@ -617,6 +617,64 @@ func run(c *core.Ctx) {
 		}
 	}
 
+	// legacy values longer than any buffer somebody might read them through (64 KiB and beyond), free of blanks and '@'
+	long := func(n int) string {
+		b := make([]byte, n)
+		for i := range b {
+			b[i] = byte('a' + (i*7+n)%26)
+		}
+		return string(b)
+	}
+	for li, n := range []int{65535, 65536, 70000, 131072} {
+		_ = li
+		for pos := 0; pos < 4; pos++ {
+			a := &message.Attributes{IfVer: 6, Username: "user", Hostname: "host.com", SSHClientVersion: "8.1", HardKey: true,
+				TouchlessSudo: &message.TouchlessSudo{Hosts: "h1", Time: 5}}
+			switch pos {
+			case 0:
+				a.SSHClientVersion = long(n)
+			case 1:
+				a.Username = long(n)
+			case 2:
+				a.Hostname = long(n)
+			default:
+				a.TouchlessSudo.Hosts = long(n)
+			}
+			// judged on the Go side (the round-trip sentence itself; a term of this size is too slow to evaluate in Coq)
+			var out string
+			var err error
+			var back *message.Attributes
+			if p, msg := core.Guard(func() {
+				out, err = a.Marshal()
+				if err == nil {
+					back, err = message.Unmarshal(out)
+				}
+			}); p {
+				c.Native("panic in the legacy round trip of a long value: "+msg, fmt.Sprintf("position %d, %d bytes", pos, n))
+				continue
+			}
+			what := ""
+			switch {
+			case err != nil:
+				what = "the encoder's own output is refused: " + err.Error()
+			case back.SSHClientVersion != a.SSHClientVersion || back.Username != a.Username || back.Hostname != a.Hostname:
+				what = "client version, user or host do not come back equal"
+			case back.HardKey != a.HardKey || back.Touch2SSH != a.Touch2SSH:
+				what = "a flag does not come back equal"
+			case back.TouchlessSudo == nil || back.TouchlessSudo.Hosts != a.TouchlessSudo.Hosts || back.TouchlessSudo.Time != a.TouchlessSudo.Time:
+				what = "the touchless-sudo fields do not come back equal"
+			case back.IfVer != 6:
+				what = fmt.Sprintf("interface version reported as %d", back.IfVer)
+			}
+			if what != "" {
+				c.Native("legacy round trip of a value of "+fmt.Sprint(n)+" bytes (no blank, no '@'): "+what,
+					map[string]interface{}{"field": []string{"sshClientVersion", "username", "hostname", "touchlessSudo.hosts"}[pos], "length": n})
+			} else {
+				c.NativeCheck(1)
+			}
+		}
+	}
+
 	// (ii) random attribute sets, both formats
 	for i, n := 0, c.N(1500, 20000); i < n; i++ {
 		emitRound("random-value", genAttrs(r))
